@@ -366,6 +366,10 @@ def Expr.ok : Expr → Prop
   | .binding n v _ b a => solidT n ∧ v.ok ∧ TrivOk b ∧ TrivOk a
   | .paren v _ _ _ _ b a => v.ok ∧ TrivOk b ∧ TrivOk a
   | .app n x _ fa b a => n.ok ∧ x.ok ∧ (∀ c ∈ fa, cOk c) ∧ TrivOk b ∧ TrivOk a
+  -- `with` from well-formed trees: the interstitial lists hold layout markers only
+  | .wth env body awc _ asc b a => env.ok ∧ body.ok ∧ cm awc = [] ∧ asc = [] ∧ TrivOk b ∧ TrivOk a
+  -- `assert` is outside the theorems' fragment (`Cst.wf`)
+  | .asrt .. => False
 def allOk : List Expr → Prop
   | [] => True
   | e :: rest => e.ok ∧ allOk rest
@@ -392,6 +396,11 @@ def Expr.lexOut : Expr → Bool → List Lex
     cm b ++ [.tok ['(']] ++ v.lexOut false ++ [.tok [')']] ++ (if na then [] else cm a)
   | .app n x _ fa b a, na =>
     cm b ++ n.lexOut false ++ cmC fa ++ x.lexOut false ++ (if na then [] else cm a)
+  | .wth env body _ _ _ b a, na =>
+    cm b ++ [.tok kwWith] ++ env.lexOut false ++ [.tok [';']] ++ body.lexOut false ++ (if na then [] else cm a)
+  -- the trailing trivia of an `assert` are written after its `;`, in front of the body
+  | .asrt cond body _ _ b a, na =>
+    cm b ++ [.tok kwAssert] ++ cond.lexOut false ++ [.tok [';']] ++ (if na then [] else cm a) ++ body.lexOut false
 def lexOutAll : List Expr → List Lex
   | [] => []
   | e :: rest => e.lexOut false ++ lexOutAll rest
@@ -504,6 +513,119 @@ theorem fnAfterP_lex : ∀ (cs : List Comment) (acc : List FP) (i : Nat), (∀ c
       refine ⟨?_, this.2⟩
       rw [this.1]; simp [lexOf_ite, cmtP_lex hc0, cmC]
 
+theorem ok_after {e : Expr} (h : e.ok) : TrivOk e.after := by
+  cases e with
+  | leaf k t b a => exact h.2.2
+  | list v m inn b a => exact h.2.2.2
+  | set v m r inn b a => exact h.2.2.2
+  | binding n v g b a => exact h.2.2.2
+  | paren v lg tg lb tb b a => exact h.2.2
+  | app n x g fa b a => exact h.2.2.2.2
+  | wth e bd c g s b a => exact h.2.2.2.2.2
+  | asrt c bd x y b a => exact h.elim
+
+theorem ok_before {e : Expr} (h : e.ok) : TrivOk e.before := by
+  cases e with
+  | leaf k t b a => exact h.2.1
+  | list v m inn b a => exact h.2.2.1
+  | set v m r inn b a => exact h.2.2.1
+  | binding n v g b a => exact h.2.2.1
+  | paren v lg tg lb tb b a => exact h.2.1
+  | app n x g fa b a => exact h.2.2.2.1
+  | wth e bd c g s b a => exact h.2.2.2.2.1
+  | asrt c bd x y b a => exact h.elim
+
+theorem leafBefore_nil' (k : LeafKind) (t : Text) (i : Nat) (inl : Bool) : leafBefore k t [] i inl = [] := by
+  unfold leafBefore; split
+  · simp [trimLeadingLayoutTrivia]
+  · rfl
+
+theorem endsWithNL_spaces_append (i : Nat) {X : Text} (hX : X ≠ []) : endsWithNL (spaces i ++ X) = endsWithNL X :=
+  endsWithNL_append_of_ne_nil _ _ hX
+
+theorem addTriviaP_nil_split (a : List Trivia) (core : List FP) (i : Nat) :
+    addTriviaP [] a core i false = .ws (spaces i) :: addTriviaP [] a core i true := by
+  simp [addTriviaP, fmtP, fmtGoP, indentP]
+
+/-- without leading trivia, the own-line rendering is the indentation run followed by the inline one -/
+theorem rebuildAP_indent_split {e : Expr} (h : e.before = []) (na : Bool) (i : Nat) :
+    e.rebuildAP na i false = .ws (spaces i) :: e.rebuildAP na i true := by
+  cases e with
+  | leaf k t b a =>
+    simp only [Expr.before] at h; subst h
+    simp [Expr.rebuildAP, addTriviaP, leafBefore_nil', fmtP, fmtGoP, indentP]
+  | list v m inn b a =>
+    simp only [Expr.before] at h; subst h
+    cases v with
+    | nil => simp only [Expr.rebuildAP]; split <;> simp [multilineBlockP, fmtP, fmtGoP, indentP]
+    | cons x xs => simp only [Expr.rebuildAP]; split <;> simp [multilineBlockP, fmtP, fmtGoP, indentP]
+  | set v m r inn b a =>
+    simp only [Expr.before] at h; subst h
+    cases v with
+    | nil => simp only [Expr.rebuildAP]; split <;> simp [multilineBlockP, addTriviaP, fmtP, fmtGoP, indentP]
+    | cons x xs => simp only [Expr.rebuildAP]; split <;> simp [multilineBlockP, addTriviaP, fmtP, fmtGoP, indentP]
+  | binding n v g b a =>
+    simp only [Expr.before] at h; subst h
+    simp [Expr.rebuildAP, fmtP, fmtGoP, indentP]
+  | paren v lg tg lb tb b a =>
+    simp only [Expr.before] at h; subst h
+    simp [Expr.rebuildAP, addTriviaP, fmtP, fmtGoP, indentP]
+  | app n x g fa b a =>
+    simp only [Expr.before] at h; subst h
+    simp [Expr.rebuildAP, addTriviaP, fmtP, fmtGoP, indentP]
+  | wth e bd c g s b a =>
+    simp only [Expr.before] at h; subst h
+    simp [Expr.rebuildAP, addTriviaP, fmtP, fmtGoP, indentP]
+  | asrt c bd x y b a =>
+    simp only [Expr.before] at h; subst h
+    simp only [Expr.rebuildAP, addTriviaP_nil_split, List.cons_append, concat_cons, text_ws]
+    rw [endsWithNL_spaces_append i (by simp [addTriviaP, fmtP, fmtGoP, indentP, kwAssert])]
+
+theorem dropCharsP_ws_spaces (i : Nat) (rest : List FP) (hi : i ≠ 0) :
+    dropCharsP (.ws (spaces i) :: rest) i = rest := by
+  have hl : (spaces i).length = i := by simp [spaces]
+  cases rest with
+  | nil => simp [dropCharsP, hi, hl]
+  | cons q r => simp [dropCharsP, hi, hl]
+
+theorem noLayoutOrComment_nil {ts : List Trivia} (hok : TrivOk ts) (h : hasLayoutOrComment ts = false) : ts = [] := by
+  cases ts with
+  | nil => rfl
+  | cons t r =>
+    exfalso
+    cases t with
+    | comma => exact hok.1 (List.mem_cons_self ..)
+    | emptyLine => simp [hasLayoutOrComment] at h
+    | linebreak => simp [hasLayoutOrComment] at h
+    | comment c => simp [hasLayoutOrComment] at h
+
+/-- the body of a `with`: a separator, then the body rendered inline or on its own line -/
+theorem withBodyPartP_shape {body : Expr} (hbd : body.ok) (awc : List Trivia) (asc : List Comment) (i : Nat) :
+    ∃ b' w, withBodyPartP (withBodyForce awc asc body.before) body.absorbable
+      (body.rebuildAP false i true) (body.rebuildAP false i false) i = .ws w :: body.rebuildAP false i b' := by
+  unfold withBodyPartP
+  split
+  · rename_i hc
+    simp only [Bool.and_eq_true, Bool.not_eq_true'] at hc
+    have hbf : body.before = [] := by
+      have hf := hc.1
+      unfold withBodyForce at hf
+      simp only [Bool.or_eq_false_iff] at hf
+      exact noLayoutOrComment_nil (ok_before hbd) hf.2
+    unfold stripIndentPrefixP
+    split
+    · rename_i hcond
+      simp only [Bool.and_eq_true, bne_iff_ne, ne_eq] at hcond
+      rw [rebuildAP_indent_split hbf, dropCharsP_ws_spaces i _ hcond.1]
+      exact ⟨true, _, rfl⟩
+    · exact ⟨false, _, rfl⟩
+  · split
+    · exact ⟨false, _, rfl⟩
+    · exact ⟨true, _, rfl⟩
+
+theorem solidT_kwWith : solidT kwWith := ⟨by simp [kwWith], by simp [kwWith, endsWithNL]⟩
+theorem solidT_kwAssert : solidT kwAssert := ⟨by simp [kwAssert], by simp [kwAssert, endsWithNL]⟩
+
 mutual
 theorem rebuildAP_lex : (e : Expr) → e.ok → ∀ (na : Bool) (i : Nat) (b : Bool),
     lexOf (e.rebuildAP na i b) = e.lexOut na ∧ Solid (e.rebuildAP na i b)
@@ -605,6 +727,8 @@ theorem rebuildAP_lex : (e : Expr) → e.ok → ∀ (na : Bool) (i : Nat) (b : B
       | binding n v g b a => exact hv.2.2.2
       | paren v lg tg lb tb b a => exact hv.2.2
       | app n x g fa b a => exact hv.2.2.2.2
+      | wth e bd c g s b a => exact hv.2.2.2.2.2
+      | asrt c bd x y b a => exact hv.elim
     have hbt := bindingTailP_lex (trivOk_append hva (ite_nil_ok na ha)) i
     have hi := indentP_lex i b
     simp only [Expr.rebuildAP, Expr.lexOut]
@@ -682,6 +806,45 @@ theorem rebuildAP_lex : (e : Expr) → e.ok → ∀ (na : Bool) (i : Nat) (b : B
       hb (ite_nil_ok na ha) (solid_append hf.2 (solid_wsc _ hargs.2)) i b
     refine ⟨?_, hat.2⟩
     rw [hat.1]; simp [hf.1, ihn.1, hargs.1, cm_ite_nil]
+  | .wth env body awc awGap asc before after, hok, na, i, b => by
+    obtain ⟨he, hbd, _, hasc, hb, ha⟩ := hok
+    subst hasc
+    have ihe := rebuildAP_lex env he false
+    have ihb := rebuildAP_lex body hbd false i
+    simp only [Expr.rebuildAP, Expr.lexOut]
+    have henv : lexOf (if (withLayout awc awGap).onNewline = true
+          then env.rebuildAP false ((withLayout awc awGap).indent.getD i) false else env.rebuildAP false i true) =
+          env.lexOut false ∧
+        Solid (if (withLayout awc awGap).onNewline = true
+          then env.rebuildAP false ((withLayout awc awGap).indent.getD i) false else env.rebuildAP false i true) := by
+      split
+      · exact ihe _ _
+      · exact ihe _ _
+    have hbody : lexOf (withBodyPartP (withBodyForce awc [] body.before) body.absorbable
+          (body.rebuildAP false i true) (body.rebuildAP false i false) i) = body.lexOut false ∧
+        Solid (withBodyPartP (withBodyForce awc [] body.before) body.absorbable
+          (body.rebuildAP false i true) (body.rebuildAP false i false) i) := by
+      obtain ⟨b', w, hsh⟩ := withBodyPartP_shape hbd awc [] i
+      rw [hsh]
+      exact ⟨by simp [(ihb b').1], solid_wsc _ (ihb b').2⟩
+    revert henv hbody
+    generalize (if (withLayout awc awGap).onNewline = true
+          then env.rebuildAP false ((withLayout awc awGap).indent.getD i) false else env.rebuildAP false i true) = envP
+    generalize (withBodyPartP (withBodyForce awc [] body.before) body.absorbable
+          (body.rebuildAP false i true) (body.rebuildAP false i false) i) = bodyP
+    intro henv hbody
+    have hat := addTriviaP_lex
+      (core := [FP.tok kwWith, FP.ws ((formatInterstitialTriviaWithSeparator awc (withLayout awc awGap) i
+          (includeIndent := false) (dropBlankIfItems := false)).1 ++
+          (formatInterstitialTriviaWithSeparator awc (withLayout awc awGap) i
+          (includeIndent := false) (dropBlankIfItems := false)).2)] ++ envP ++
+        [FP.tok [';'], FP.ws (formatInlineCommentSuffix [])] ++ bodyP)
+      hb (ite_nil_ok na ha)
+      (solid_append (solid_append (solid_append (solid_cons (p := FP.tok kwWith) solidT_kwWith (solid_wsc _ solid_nil)) henv.2)
+        (solid_tokc ';' (by decide) (solid_wsc _ solid_nil))) hbody.2) i b
+    refine ⟨?_, hat.2⟩
+    rw [hat.1]; simp [henv.1, hbody.1, cm_ite_nil]
+  | .asrt cond body aac bsc before after, hok, na, i, b => hok.elim
 theorem rebuildAllP_lex : (es : List Expr) → allOk es → ∀ (i : Nat) (b : Bool),
     ((rebuildAllP es i b).map lexOf).flatten = lexOutAll es ∧ ∀ x ∈ rebuildAllP es i b, Solid x
   | [], _, i, b => ⟨rfl, by intro x hx; cases hx⟩
@@ -702,6 +865,8 @@ theorem previewP_lex : (e : Expr) → e.ok → ∀ (i : Nat) (p : List FP), e.pr
   | .binding .., _, i, p, h => by simp [Expr.previewP] at h
   | .paren .., _, i, p, h => by simp [Expr.previewP] at h
   | .app .., _, i, p, h => by simp [Expr.previewP] at h
+  | .wth .., _, i, p, h => by simp [Expr.previewP] at h
+  | .asrt .., _, i, p, h => by simp [Expr.previewP] at h
   | .list value ml inner before after, hok, i, p, h => by
     obtain ⟨hv, hin, hb, ha⟩ := hok
     have ih := fun i b => rebuildAllP_lex value hv i b
